@@ -254,16 +254,16 @@ End Sem.
 
 (* --- the textual rewrites, structurally ------------------------------------------------------- *)
 (* merging adjacent `{ .. }` operands of an intersection: what `.replace(" } & { ", " ")` is meant to do *)
-Fixpoint merge_adjacent (l : list tsty) : list tsty :=
-  match l with
-  | TObj OStruct ps :: r =>
-      match merge_adjacent r with
-      | TObj OStruct qs :: r' => TObj OStruct (ps ++ qs) :: r'
-      | r' => TObj OStruct ps :: r'
+Fixpoint merge_from (cur : tsty) (rest : list tsty) : list tsty :=
+  match rest with
+  | [] => [cur]
+  | x :: r =>
+      match cur, x with
+      | TObj OStruct ps, TObj OStruct qs => merge_from (TObj OStruct (ps ++ qs)) r
+      | _, _ => cur :: merge_from x r
       end
-  | x :: r => x :: merge_adjacent r
-  | [] => []
   end.
+Definition merge_adjacent (l : list tsty) : list tsty := match l with [] => [] | x :: r => merge_from x r end.
 
 Definition inter_of (l : list tsty) : tsty := match l with [x] => x | _ => TInter l end.
 (* an operand that is itself an intersection contributes its operands (intersection is associative) *)
